@@ -128,7 +128,7 @@ pub fn run_sliced(im: &mut Impl, forms: &[Cell], budget: &Budget, gc_at_slice_en
     }
     s.output = im.log.borrow()[out_before..].iter().map(|(k, c)| format!("{}:{:#}", k, c)).collect();
     s.instructions = verif::icount();
-    verif::set_after_gc(None);
+    crate::conform::install_default_audit();
     verif::set_slice_end_gc(false);
     let g = audit_log.borrow();
     s.audited = g.0;
